@@ -16,6 +16,7 @@ import (
 	"fmt"
 	"reflect"
 	"strings"
+	"verif/lib/build"
 
 	ipld "github.com/ipld/go-ipld-prime"
 	"github.com/ipld/go-ipld-prime/codec"
@@ -124,6 +125,9 @@ func c19Init() error {
 }
 
 func (c19) RunCase(c *fw.Ctx, rng *fw.RNG, batch, i int) {
+	if i%40 == 17 {
+		c19Converters(c, rng.Fork())
+	}
 	if err := c19Init(); err != nil {
 		c.Inconclusive("declared library does not load: " + err.Error())
 		return
@@ -319,6 +323,35 @@ func (h *c19H) wrapCheck(e c19Entry, inferred bool, when string) {
 	}
 	if got := bindnode.Unwrap(n); got != e.gv.Addr().Interface() {
 		c.Deviate("C19:unwrap-of-wrap-is-another-value:"+sig, fmt.Sprintf("Unwrap(Wrap(p)) = %p (%T), p = %p\n%s", got, got, e.gv.Addr().Interface(), h.ctx(b, e.tv)))
+	}
+	// The clone idiom: n.Prototype().NewBuilder().AssignNode(n). The built Go value holds what was assembled,
+	// and it is its OWN value: no slice, map or pointer of it is the same memory as the corresponding one of the
+	// source (decided structurally, by comparing addresses in a parallel walk — nothing is mutated). (Round-4
+	// seed C19-11: a same-type AssignNode shortcut that takes the Go value over by shallow assignment.)
+	if h.rng.Chance(1, 3) {
+		var built datamodel.Node
+		var cerr error
+		if !c.Guard("C19:clone:"+sig, func() {
+			nb := n.Prototype().NewBuilder()
+			if cerr = nb.AssignNode(n); cerr == nil {
+				built = nb.Build()
+			}
+		}) {
+			c.Count("clones_via_assignnode", 1)
+			if cerr != nil {
+				c.Deviate("C19:clone:fails:"+sig, fmt.Sprintf("n.Prototype().NewBuilder().AssignNode(n) failed: %v\n%s", cerr, h.ctx(b, e.tv)))
+			} else if ptr := bindnode.Unwrap(built); ptr != nil {
+				cv := reflect.ValueOf(ptr)
+				if cv.Kind() == reflect.Ptr && !cv.IsNil() {
+					bdc := gobind.Binder{TS: b.ts}
+					if back, err := bdc.FromGo(b.t, cv.Elem()); err != nil || !model.Equal(back, e.tv) {
+						c.Deviate("C19:clone:go-value-differs:"+sig, fmt.Sprintf("the clone's Go value holds %s (%v), the source holds %s\n%s", clipS(back.Dump(), 500), err, clipS(e.tv.Dump(), 500), h.ctx(b, e.tv)))
+					} else if where := c19SharedMemory(cv.Elem(), e.gv, "", 0); where != "" {
+						c.Deviate("C19:clone:shares-memory-with-the-source:"+sig, fmt.Sprintf("the Go value built by AssignNode(n) on n's own prototype shares memory with n's Go value at %s: a later change to one shows in the other\n%s", where, h.ctx(b, e.tv)))
+					}
+				}
+			}
+		}
 	}
 	bd := gobind.Binder{TS: b.ts}
 	if back, err := bd.FromGo(b.t, e.gv); err != nil || !model.Equal(back, e.tv) {
@@ -654,4 +687,223 @@ func clipBytes(b []byte) []byte {
 		return b[:200]
 	}
 	return b
+}
+
+// c19SharedMemory walks two Go values of the same type in parallel and names the first place where a non-empty
+// slice, a map or a pointer of one is the same memory as the other's ("" if there is none). Interface-held
+// nodes and links are immutable library values and may be shared; so may byte slices, which the library hands on
+// without copying by design (my first version flagged them on the unchanged tree — demanding more than the
+// properties state, which exclude callers that write into byte slices; corrected before it was committed).
+func c19SharedMemory(a, b reflect.Value, path string, depth int) string {
+	if depth > 12 || !a.IsValid() || !b.IsValid() || a.Type() != b.Type() {
+		return ""
+	}
+	switch a.Kind() {
+	case reflect.Ptr:
+		if a.IsNil() || b.IsNil() {
+			return ""
+		}
+		if a.Pointer() == b.Pointer() {
+			return path + " (pointer)"
+		}
+		return c19SharedMemory(a.Elem(), b.Elem(), path+"*", depth+1)
+	case reflect.Slice:
+		if a.Len() == 0 || b.Len() == 0 {
+			return ""
+		}
+		if a.Type().Elem().Kind() == reflect.Uint8 {
+			return "" // bytes are handed on without copying by design (AsBytes/AssignBytes); the properties exclude callers writing into byte slices
+		}
+		if a.Pointer() == b.Pointer() {
+			return path + " (slice)"
+		}
+		for i := 0; i < a.Len() && i < b.Len(); i++ {
+			if w := c19SharedMemory(a.Index(i), b.Index(i), fmt.Sprintf("%s[%d]", path, i), depth+1); w != "" {
+				return w
+			}
+		}
+	case reflect.Map:
+		if a.IsNil() || b.IsNil() {
+			return ""
+		}
+		if a.Pointer() == b.Pointer() {
+			return path + " (map)"
+		}
+		for _, k := range a.MapKeys() {
+			if bv := b.MapIndex(k); bv.IsValid() {
+				if w := c19SharedMemory(a.MapIndex(k), bv, fmt.Sprintf("%s[%v]", path, k), depth+1); w != "" {
+					return w
+				}
+			}
+		}
+	case reflect.Struct:
+		for i := 0; i < a.NumField(); i++ {
+			if !a.Type().Field(i).IsExported() {
+				continue
+			}
+			if w := c19SharedMemory(a.Field(i), b.Field(i), path+"."+a.Type().Field(i).Name, depth+1); w != "" {
+				return w
+			}
+		}
+	}
+	return ""
+}
+
+// ---- custom converters (bindnode options) -----------------------------------------------------------------
+//
+// bindnode.Typed*Converter options let a Go type of the user's own stand for a schema scalar. The options are
+// part of the binding's arguments: Wrap, Prototype (type and representation builders, also after Reset) and
+// Marshal/Unmarshal given the same options must convert every time. (Round-4 seed C19-10: the representation
+// builder forgetting the options on Reset — the first value built is right, every later one is not.)
+
+type cvTook struct{ Ms int64 }   // schema Int x  <->  cvTook{Ms: x * 1000}
+type cvBlob struct{ Rev []byte } // schema Bytes b <-> cvBlob{Rev: reverse(b)}
+type cvRec struct {
+	Took cvTook
+	Blob cvBlob
+	List []cvTook
+	Opt  *cvBlob
+}
+
+func cvReverse(b []byte) []byte {
+	out := make([]byte, len(b))
+	for i := range b {
+		out[len(b)-1-i] = b[i]
+	}
+	return out
+}
+
+var cvOpts = []bindnode.Option{
+	bindnode.TypedIntConverter(&cvTook{}, func(i int64) (interface{}, error) { return &cvTook{Ms: i * 1000}, nil },
+		func(v interface{}) (int64, error) { return v.(*cvTook).Ms / 1000, nil }),
+	bindnode.TypedBytesConverter(&cvBlob{}, func(b []byte) (interface{}, error) { return &cvBlob{Rev: cvReverse(b)}, nil },
+		func(v interface{}) ([]byte, error) { return cvReverse(v.(*cvBlob).Rev), nil }),
+}
+
+var cvTS *schema.TypeSystem
+
+func c19Converters(c *fw.Ctx, rng *fw.RNG) {
+	if cvTS == nil {
+		ts := new(schema.TypeSystem)
+		ts.Init()
+		ts.Accumulate(schema.SpawnInt("Took"))
+		ts.Accumulate(schema.SpawnBytes("Blob"))
+		ts.Accumulate(schema.SpawnList("TookList", "Took", false))
+		ts.Accumulate(schema.SpawnStruct("Rec", []schema.StructField{
+			schema.SpawnStructField("Took", "Took", false, false), schema.SpawnStructField("Blob", "Blob", false, false),
+			schema.SpawnStructField("List", "TookList", false, false), schema.SpawnStructField("Opt", "Blob", true, false),
+		}, schema.SpawnStructRepresentationMap(map[string]string{"Took": "t"})))
+		cvTS = ts
+	}
+	typ := cvTS.TypeByName("Rec")
+	type val struct {
+		took int64
+		blob []byte
+		list []int64
+		opt  []byte // nil = absent
+	}
+	draw := func() val {
+		v := val{took: int64(rng.Intn(2000)) - 1000, blob: rng.Bytes(1 + rng.Intn(6))}
+		for k := 0; k < rng.Intn(4); k++ {
+			v.list = append(v.list, int64(rng.Intn(500)))
+		}
+		if rng.Bool() {
+			v.opt = rng.Bytes(1 + rng.Intn(4))
+		}
+		return v
+	}
+	model2 := func(v val, repr bool) model.Val {
+		l := model.Val{K: model.KList, L: []model.Val{}}
+		for _, x := range v.list {
+			l.L = append(l.L, model.Int(x))
+		}
+		tk := "Took"
+		if repr {
+			tk = "t"
+		}
+		es := []model.Entry{model.E(tk, model.Int(v.took)), model.E("Blob", model.Bytes(v.blob)), model.E("List", l)}
+		if v.opt != nil {
+			es = append(es, model.E("Opt", model.Bytes(v.opt)))
+		} else if !repr {
+			es = append(es, model.E("Opt", model.Val{K: model.KAbsent}))
+		}
+		return model.Val{K: model.KMap, M: es}
+	}
+	goOf := func(v val) cvRec {
+		g := cvRec{Took: cvTook{v.took * 1000}, Blob: cvBlob{cvReverse(v.blob)}}
+		for _, x := range v.list {
+			g.List = append(g.List, cvTook{x * 1000})
+		}
+		if v.opt != nil {
+			g.Opt = &cvBlob{cvReverse(v.opt)}
+		}
+		return g
+	}
+	sameGo := func(a, b cvRec) bool {
+		if a.Took != b.Took || !bytes.Equal(a.Blob.Rev, b.Blob.Rev) || len(a.List) != len(b.List) || (a.Opt == nil) != (b.Opt == nil) {
+			return false
+		}
+		for i := range a.List {
+			if a.List[i] != b.List[i] {
+				return false
+			}
+		}
+		return a.Opt == nil || bytes.Equal(a.Opt.Rev, b.Opt.Rev)
+	}
+	c.SetCase(func() any { return map[string]any{"family": "custom converters"} })
+	c.Guard("C19:converters", func() {
+		// Wrap reads the converted data
+		v := draw()
+		g := goOf(v)
+		n := bindnode.Wrap(&g, typ, cvOpts...)
+		if got := obs.ReadOut(n, obs.Options{Typed: true, NoWrongKindProbes: true}).Val; !model.Equal(got, model2(v, false)) {
+			c.Deviate("C19:converters:wrap-differs", fmt.Sprintf("Wrap with converter options reads %s, the Go value holds %s", got.Dump(), model2(v, false).Dump()))
+		}
+		c.Count("converter_checks", 1)
+		// builders at both levels, reused through Reset three times
+		for _, reprLevel := range []bool{false, true} {
+			proto := bindnode.Prototype((*cvRec)(nil), typ, cvOpts...)
+			var nb datamodel.NodeBuilder = proto.NewBuilder()
+			if reprLevel {
+				nb = proto.Representation().NewBuilder()
+			}
+			for round := 0; round < 3; round++ {
+				v := draw()
+				in := model2(v, reprLevel)
+				var plain []model.Entry
+				for _, e := range in.M {
+					if e.V.K != model.KAbsent {
+						plain = append(plain, e)
+					}
+				}
+				if err := build.Assemble(nb, model.Val{K: model.KMap, M: plain}, &build.Prog{Plain: true}); err != nil {
+					c.Deviate("C19:converters:build-fails", fmt.Sprintf("round %d after Reset (representation level: %v): %v for %s", round, reprLevel, err, in.Dump()))
+					break
+				}
+				built := nb.Build()
+				ptr, _ := bindnode.Unwrap(built).(*cvRec)
+				if ptr == nil || !sameGo(*ptr, goOf(v)) {
+					c.Deviate("C19:converters:go-value-differs", fmt.Sprintf("round %d of one builder (reused through Reset; representation level: %v): assembled %s, the Go value holds %+v, expected %+v", round, reprLevel, in.Dump(), ptr, goOf(v)))
+					break
+				}
+				c.Count("converter_builds", 1)
+				nb.Reset()
+			}
+		}
+		// Marshal / Unmarshal with the same options
+		v2 := draw()
+		g2 := goOf(v2)
+		enc, err := ipld.Marshal(dagcbor.Encode, &g2, typ, cvOpts...)
+		if err != nil {
+			c.Deviate("C19:converters:marshal-fails", err.Error())
+			return
+		}
+		if want := refcbor.Encode(model2(v2, true)); !bytes.Equal(enc, want) {
+			c.Deviate("C19:converters:marshal-bytes-differ", fmt.Sprintf("Marshal gives %x, the representation encodes as %x", enc, want))
+		}
+		var back cvRec
+		if _, err := ipld.Unmarshal(enc, dagcbor.Decode, &back, typ, cvOpts...); err != nil || !sameGo(back, g2) {
+			c.Deviate("C19:converters:unmarshal-differs", fmt.Sprintf("Unmarshal(Marshal(v)) gives %+v (%v), v = %+v", back, err, g2))
+		}
+	})
 }
